@@ -512,6 +512,27 @@ func genModes(g *h.Gen) {
 	for len(rot) < 6 {
 		rot = append(rot, h.Pick(r, ents))
 	}
+	// fixed teardown matrix (every tier, every seed): every ECMA-family entry, alternate screen on and off, a history that turns
+	// everything on, draws coloured / attributed cells, suspends, resumes, draws again and finishes — a description-specific
+	// teardown string (op, sgr0, rmkx, smam, …) is exercised for EVERY entry, not only for the ones a seed happens to pick
+	for _, name := range ents {
+		if terminfo.VerifEntries()[name] == nil {
+			continue
+		}
+		for alt := 1; alt >= 0; alt-- {
+			cols := map[uint64]bool{}
+			st := func(fg, bg tcell.Color, attrs uint64) string {
+				f := StyleF{Fg: uint64(fg), Bg: uint64(bg), Attrs: attrs}
+				cols[f.Fg], cols[f.Bg] = true, true
+				return f.String()
+			}
+			ops := []string{"ME 7", "PE", "FE", "T " + h.Hex([]byte("tcell demo")), fmt.Sprintf("K 3 %d", uint64(tcell.ColorRed)), "C 1 0",
+				"S 0 0 65 - " + st(tcell.ColorMaroon, tcell.ColorNavy, 1), "S 1 0 66 - " + st(tcell.ColorWhite, tcell.ColorBlack, 4), "W", "Z", "R",
+				"S 2 0 67 - " + st(tcell.ColorYellow, tcell.ColorGreen, 2|8), "S 0 1 68 - " + st(tcell.ColorRed, 0, 0), "W", "Q"}
+			ops = append(ops, fitOps(name, cols)...)
+			g.Emit("modes %s%s 0 %d 4 2 %s", name, drawVariantSuffix(), alt, strings.Join(ops, "; "))
+		}
+	}
 	n := g.N(2400, 45*1500)
 	for i := 0; i < n; i++ {
 		var name string
